@@ -92,8 +92,13 @@ def ensure_facts():
         shutil.rmtree(d, ignore_errors=True)
         os.rename(tmp, d)
         # keep the cache small: drop all but the 6 most recent fact directories
+        # (never a directory that was used in the last half hour: the thorough tier replays variants in parallel, each with its own facts
+        #  directory, and a long fixpoint must still find its directory when it is done)
         olds = sorted(glob.glob(os.path.join(CACHE, "facts", "*")), key=os.path.getmtime)[:-6]
-        for o in olds: shutil.rmtree(o, ignore_errors=True)
+        for o in olds:
+            try:
+                if time.time() - os.path.getmtime(o) > 1800: shutil.rmtree(o, ignore_errors=True)
+            except OSError: pass
     return d, key, True
 
 
